@@ -45,6 +45,8 @@ Proof. vm_compute. reflexivity. Qed.
 Lemma ob_challenge_is_basic :
   challenge_header = b "Proxy-Authenticate" /\ has_prefix challenge_prefix (b "Basic ") = true.
 Proof. vm_compute. split; reflexivity. Qed.
+Lemma ob_challenge_basic_prefix : forall cfg, has_prefix (challenge_value cfg) (b "Basic") = true.
+Proof. intro cfg. unfold challenge_value. set (n := c_name cfg). vm_compute. reflexivity. Qed.
 Lemma ob_challenge_present : forall cfg,
   h_values (b "Proxy-Authenticate") (written_error_headers cfg CAuth) = [challenge_value cfg].
 Proof. intro cfg. set (n := c_name cfg). vm_compute. reflexivity. Qed.
